@@ -46,6 +46,22 @@ EdgesOf(paths, isClip) ==
 
 InputEdges(subj, clip) == EdgesOf(subj, FALSE) \o EdgesOf(clip, TRUE)
 
+\* the non-horizontal edges of an open polyline (no closing edge; consecutive duplicates removed).  Open edges carry
+\* wdx = 0 here: they never enter a winding sum (the implementation's own direction flag of open bounds is not
+\* specified)
+OpenEdgesOfPath(path) ==
+  LET n == Len(path)
+      f[i \in 0..n] == IF i <= 1 THEN <<>>
+                       ELSE LET a == path[i - 1] b == path[i] IN
+                            IF a[2] = b[2] THEN f[i - 1]
+                            ELSE IF b[2] < a[2] THEN Append(f[i - 1], [bot |-> a, top |-> b, wdx |-> 0, clip |-> FALSE, open |-> TRUE])
+                            ELSE Append(f[i - 1], [bot |-> b, top |-> a, wdx |-> 0, clip |-> FALSE, open |-> TRUE])
+  IN  f[n]
+OpenEdgesOf(paths) ==
+  LET n == Len(paths)
+      f[k \in 0..n] == IF k = 0 THEN <<>> ELSE f[k - 1] \o OpenEdgesOfPath(paths[k])
+  IN  f[n]
+
 \* edges active in the beam that starts at scan-line y
 Spans(e, y) == e.bot[2] >= y /\ e.top[2] < y
 
@@ -93,14 +109,18 @@ Coincide(a, b, y) == XNum(a, y) * XDen(b) = XNum(b, y) * XDen(a) /\ XNum(a, y - 
 (* implementation's active edges left to right, each                       *)
 (* [bot, top, wdx, clip, open, wc, wc2, hot, joined, horiz].               *)
 (***************************************************************************)
-AsEdge(r) == [bot |-> r.bot, top |-> r.top, wdx |-> r.wdx, clip |-> r.clip]
+AsEdge(r) == [bot |-> r.bot, top |-> r.top, wdx |-> IF r.open THEN 0 ELSE r.wdx, clip |-> r.clip]
+AsEdgeO(r) == [bot |-> r.bot, top |-> r.top, wdx |-> IF r.open THEN 0 ELSE r.wdx, clip |-> r.clip, open |-> r.open]
+WithOpen(e) == [bot |-> e.bot, top |-> e.top, wdx |-> e.wdx, clip |-> e.clip, open |-> FALSE]
 
-S1Membership(inputs, beam) ==
-  LET rec == [i \in 1..Len(beam.ael) |-> AsEdge(beam.ael[i])]
-      exp == SelectSeq(inputs, LAMBDA e : Spans(e, beam.y)) IN
-  /\ \A i \in 1..Len(beam.ael) : ~beam.ael[i].horiz /\ ~beam.ael[i].open
-  /\ Len(rec) = Len(exp)
-  /\ \A i \in 1..Len(rec) : CountEq(rec, rec[i]) = CountEq(exp, rec[i])
+\* inputs: the closed input edges; openIn: the edges of the open subject lines
+S1Membership(inputs, openIn, beam) ==
+  LET rec == [i \in 1..Len(beam.ael) |-> AsEdgeO(beam.ael[i])]
+      exp == [i \in 1..Len(inputs) |-> WithOpen(inputs[i])] \o openIn
+      expB == SelectSeq(exp, LAMBDA e : Spans(e, beam.y)) IN
+  /\ \A i \in 1..Len(beam.ael) : ~beam.ael[i].horiz
+  /\ Len(rec) = Len(expB)
+  /\ \A i \in 1..Len(rec) : CountEq(rec, rec[i]) = CountEq(expB, rec[i])
 
 \* The snapshot is taken before the intersections of the beam are processed, so the list is in the order
 \* of the beam's BOTTOM: x is compared on the scan-line y itself (2 units of slack for the rounding of
@@ -115,8 +135,10 @@ S3Winding(fr, beam) ==
   LET ael == [i \in 1..Len(beam.ael) |-> AsEdge(beam.ael[i])] IN
   \* (under EvenOdd the implementation only keeps |wc| = 1: the sign is copied between the two bounds of a
   \*  local minimum and swapped at intersections, and is never consulted)
-  \A i \in 1..Len(ael) : /\ IF fr = 0 THEN Abs(beam.ael[i].wc) = 1 ELSE beam.ael[i].wc = WcExpected(fr, ael, i)
-                          /\ beam.ael[i].wc2 = Wc2Expected(fr, ael, i)
+  \* (open edges keep the counts they were inserted with; they are not updated when the line crosses closed edges)
+  \A i \in 1..Len(ael) : beam.ael[i].open \/
+                          (/\ IF fr = 0 THEN Abs(beam.ael[i].wc) = 1 ELSE beam.ael[i].wc = WcExpected(fr, ael, i)
+                           /\ beam.ael[i].wc2 = Wc2Expected(fr, ael, i))
 
 \* contribution is demanded for edges that do not coincide with a neighbour (between coincident edges the
 \* region has zero width and either bookkeeping is acceptable)
@@ -124,7 +146,14 @@ S4Contribution(ct, fr, beam) ==
   LET ael == [i \in 1..Len(beam.ael) |-> AsEdge(beam.ael[i])]  n == Len(ael) IN
   \A i \in 1..n :
      ((i > 1 /\ Coincide(ael[i - 1], ael[i], beam.y)) \/ (i < n /\ Coincide(ael[i], ael[i + 1], beam.y)))
-        \/ ((beam.ael[i].hot \/ beam.ael[i].joined) = Contributes(ct, fr, ael, i))
+        \/ (IF beam.ael[i].open
+            \* an open subject edge is part of the open solution exactly where the line runs inside the operation's
+            \* region: inside the clip region (Intersection), outside both closed regions (Union), outside the clip (else)
+            THEN beam.ael[i].hot = (LET ws == SumLeft(ael, i, FALSE)  wc == SumLeft(ael, i, TRUE) IN
+                                    CASE ct = 1 -> Fill(fr, wc)
+                                      [] ct = 2 -> ~Fill(fr, ws) /\ ~Fill(fr, wc)
+                                      [] OTHER -> ~Fill(fr, wc))
+            ELSE (beam.ael[i].hot \/ beam.ael[i].joined) = Contributes(ct, fr, ael, i))
 
 \* S5: scan-lines strictly decrease and every one is the Y of an input vertex
 S5Scanlines(subj, clip, beams) ==
@@ -205,10 +234,10 @@ R2Owners(rings, tree) ==
 RawRings(rings) == LET s == SelectSeq(rings, LAMBDA r : r.hasPts /\ ~r.open) IN [i \in 1..Len(s) |-> s[i].pts]
 
 SweepOK(e) ==
-  LET inputs == InputEdges(e.subj, e.clip) IN
-  /\ S5Scanlines(e.subj, e.clip, e.beams)
+  LET inputs == InputEdges(e.subj, e.clip)  openIn == OpenEdgesOf(e.open) IN
+  /\ S5Scanlines(e.subj \o e.open, e.clip, e.beams)
   /\ \A k \in 1..Len(e.beams) :
-       /\ S1Membership(inputs, e.beams[k])
+       /\ S1Membership(inputs, openIn, e.beams[k])
        /\ S2Order(e.beams[k])
        /\ S3Winding(e.fr, e.beams[k])
        /\ S4Contribution(e.ct, e.fr, e.beams[k])
